@@ -713,6 +713,57 @@ theorem counter_unchanged_otherwise (s0 : Nat) (tr : List Obs) (e : Obs)
   | result id ok t => exact absurd rfl (h2 id ok t)
   | _ => rfl
 
+/-! ### one exchange: which acknowledgement ends the wait -/
+
+/-- A request/acknowledgement exchange succeeds only if an ACK with the same
+channel id, the same sequence counter and no error status arrived before the
+timeout. -/
+theorem rr_ok_only_after_matching_ack (ch seq timeout : Nat) (acks : List AckIn)
+    (h : rrOutcome ch seq timeout acks = .ok) :
+    ∃ a ∈ acks, a.ch = ch ∧ a.seq = seq ∧ a.st = 0 ∧ a.t < timeout := by
+  induction acks with
+  | nil => simp [rrOutcome] at h
+  | cons a as ih =>
+    simp only [rrOutcome] at h
+    split at h
+    · rename_i hm
+      split at h
+      · rename_i hst
+        exact ⟨a, List.mem_cons_self .., hm.2.1, hm.2.2, hst, hm.1⟩
+      · cases h
+    · obtain ⟨b, hb, hh⟩ := ih h
+      exact ⟨b, List.mem_cons_of_mem _ hb, hh⟩
+
+/-- It fails with an error status only if the matching ACK carried that status. -/
+theorem rr_error_only_from_matching_ack (ch seq timeout st : Nat) (acks : List AckIn)
+    (h : rrOutcome ch seq timeout acks = .error st) :
+    st ≠ 0 ∧ ∃ a ∈ acks, a.ch = ch ∧ a.seq = seq ∧ a.st = st ∧ a.t < timeout := by
+  induction acks with
+  | nil => simp [rrOutcome] at h
+  | cons a as ih =>
+    simp only [rrOutcome] at h
+    split at h
+    · rename_i hm
+      split at h
+      · cases h
+      · rename_i hst
+        simp only [RROut.error.injEq] at h
+        exact ⟨h ▸ hst, a, List.mem_cons_self .., hm.2.1, hm.2.2, h, hm.1⟩
+    · obtain ⟨h0, b, hb, hh⟩ := ih h
+      exact ⟨h0, b, List.mem_cons_of_mem _ hb, hh⟩
+
+/-- ACKs of other requests (another counter or another channel) are ignored:
+they neither confirm nor fail the request, however many arrive. -/
+theorem rr_foreign_acks_ignored (ch seq timeout : Nat) (acks : List AckIn)
+    (h : ∀ a ∈ acks, a.ch ≠ ch ∨ a.seq ≠ seq) : rrOutcome ch seq timeout acks = .timeout := by
+  induction acks with
+  | nil => rfl
+  | cons a as ih =>
+    simp only [rrOutcome]
+    have ha := h a (List.mem_cons_self ..)
+    rw [if_neg (by rintro ⟨-, h1, h2⟩; rcases ha with ha | ha <;> contradiction)]
+    exact ih fun b hb => h b (List.mem_cons_of_mem _ hb)
+
 /-! ### non-vacuity: accepted and refused traces -/
 
 /-- two frames across the wrap, a lost ACK with one repetition, a stale ACK that
